@@ -92,6 +92,26 @@ def run_rule(run, rule_id="F-SNAPSHOT"):
         ok = _is_copy_of(save.value, tgt)
         why = "restored in place" if inplace else f"mutated in place at {muts[:2]}"
         run.ob(ok, f"{cname}.__enter__", file=m.rel, line=save.lineno, detail=tgt, expected=f"a copy of {tgt} ({why})", found=src(save.value)[:80])
+    # every value saved on entry and used on exit is put back by ASSIGNMENT to the place it was read from (rebinding or
+    # in-place `G[:] = saved`): a restore routed through a setter can decline (e.g. for None) and leave stale state behind
+    for m in run.idx.all_modules("cohdl/"):
+        for cname in m.classes:
+            en = m.functions.get(f"{cname}.__enter__")
+            ex = m.functions.get(f"{cname}.__exit__")
+            if en is None or ex is None:
+                continue
+            saves = {dotted(a.targets[0]): a for a in walk_local(en.node) if isinstance(a, ast.Assign) and len(a.targets) == 1 and (dotted(a.targets[0]) or "").startswith("self.")}
+            for attr, a in saves.items():
+                reads = [x for x in ast.walk(ex.node) if isinstance(x, ast.Attribute) and dotted(x) == attr and isinstance(x.ctx, ast.Load)]
+                if not reads:
+                    continue
+                assigned = any(isinstance(st, ast.Assign) and dotted(st.value) == attr for st in walk_local(ex.node))
+                as_arg = [c for c in ast.walk(ex.node) if isinstance(c, ast.Call) and any(dotted(x) == attr for x in c.args)]
+                if assigned or not as_arg:
+                    continue
+                n += 1
+                run.ob(False, f"{cname}.__exit__", file=m.rel, line=as_arg[0].lineno, detail=f"restores-{attr}", expected=f"<state> = {attr}  (the value read in __enter__ is assigned back)",
+                       found=f"`{src(as_arg[0])[:60]}`: the saved value is handed to a routine that may not restore it")
     if n < 2:
         raise AnalysisError(f"{rule_id}: save/restore pairs not recognised ({n})")
     # positive control: a by-reference save must not count as a copy
